@@ -213,6 +213,8 @@ func (this *DefaultOutputBitStream) push(val uint64) {
 // Write buffer into underlying stream
 func (this *DefaultOutputBitStream) flush() error {
 	if this.Closed() {
+		// Drop the rejected word so that Written() stays exact
+		this.position = 0
 		return errors.New("Stream closed")
 	}
 
